@@ -523,6 +523,9 @@ class DirectSolver(LinearSolver):
 
                 x_vec[:] = sol_array
 
+            # the solution is cached with the scaled rhs, so cache it in the scaled state too
+            sol_array = x_vec
+
         # matrix-vector-product generated jacobians are scaled.
         else:
             x_vec[:] = sol_array = scipy.linalg.lu_solve(self._lup, b_vec, trans=trans_lu)
